@@ -205,7 +205,7 @@ def run(out: core.Outcome) -> None:
     core.setup_repo_import()
     out.rule = (
         "TLC enumerates the complete admissible scenario space of Recover.tla (64 200 scenarios); each replayed scenario is "
-        "rendered with concrete dyadic spacings and a seeded sub-cell jitter, located with refinement, and every original "
+        "rendered with concrete spacings between 2^-20 and 2^10 and a seeded sub-cell jitter, located with refinement, and every original "
         "must be matched by exactly one result with relative errors of position (per radius), radius and width below 1e-4. "
         "Quick: a seeded sample covering every pair of factor values; thorough: every scenario. Non-trivial = all."
     )
@@ -222,7 +222,8 @@ def run(out: core.Outcome) -> None:
             raise core.MachineryError("covering sample does not cover all pairs")
     else:
         chosen = list(range(len(scens)))
-    items = [(i, scens[i], out.seed * 7 + i) for i in chosen]
+    # quick: every sampled scenario at three of the six spacings (and three jitters / origins); thorough: all at one
+    items = [(i, scens[i], out.seed * 7 + i + k) for i in chosen for k in ((0, 1, 3) if out.tier == "quick" else (0,))]
     # 3-D first
     items.sort(key=lambda it: -(3 if it[1]["fam"] in ("cart3",) else 1))
     chunks = [items[i :: core.NCPU * 6] for i in range(core.NCPU * 6)]
